@@ -7,9 +7,10 @@ import (
 	"strings"
 
 	capnp "capnproto.org/go/capnp/v3"
+	. "verifh/hc"
 )
 
-func init() { cmds["c13"] = runC13 }
+func main() { Main(runC13) }
 
 // chunkReader delivers its data in the given chunk sizes (cycled), to vary bufio's
 // Buffered() and with it the Reader's fast/slow path choice.
@@ -36,32 +37,23 @@ func (c *chunkReader) Read(p []byte) (int, error) {
 	return n, nil
 }
 
-func safely(f func() string) (res string) {
-	defer func() {
-		if e := recover(); e != nil {
-			res = "panic"
-		}
-	}()
-	return f()
-}
-
 func c13Pack(src []byte) string {
-	return safely(func() string { return "ok " + hx(capnp.VerifPack(nil, src)) })
+	return Safely(func() string { return "ok " + Hx(capnp.VerifPack(nil, src)) })
 }
 
 func c13Unpack(src []byte) string {
-	return safely(func() string {
+	return Safely(func() string {
 		out, err := capnp.VerifUnpack(nil, src)
 		if err != nil {
 			return "err"
 		}
-		return "ok " + hx(out)
+		return "ok " + Hx(out)
 	})
 }
 
 // stream through Reader.Read with request sizes `sizes` (cycled) and underlying chunking.
 func c13Stream(src []byte, chunks, sizes []int, bufSize int, wordAPI bool) string {
-	return safely(func() string {
+	return Safely(func() string {
 		rd := capnp.VerifNewPackedReader(&chunkReader{data: append([]byte(nil), src...), chunks: chunks}, bufSize)
 		var out []byte
 		for k := 0; ; k++ {
@@ -72,7 +64,7 @@ func c13Stream(src []byte, chunks, sizes []int, bufSize int, wordAPI bool) strin
 				var w [8]byte
 				err := rd.ReadWord(w[:])
 				if err == io.EOF {
-					return "ok " + hx(out)
+					return "ok " + Hx(out)
 				}
 				if err != nil {
 					return "err"
@@ -84,7 +76,7 @@ func c13Stream(src []byte, chunks, sizes []int, bufSize int, wordAPI bool) strin
 			n, err := rd.Read(buf)
 			out = append(out, buf[:n]...)
 			if err == io.EOF {
-				return "ok " + hx(out)
+				return "ok " + Hx(out)
 			}
 			if err != nil {
 				return "err"
@@ -94,24 +86,6 @@ func c13Stream(src []byte, chunks, sizes []int, bufSize int, wordAPI bool) strin
 			}
 		}
 	})
-}
-
-func ints(xs []int) string {
-	s := make([]string, len(xs))
-	for i, x := range xs {
-		s[i] = fmt.Sprint(x)
-	}
-	return strings.Join(s, ",")
-}
-
-func parseInts(s string) []int {
-	var r []int
-	for _, f := range strings.Split(s, ",") {
-		var x int
-		fmt.Sscan(f, &x)
-		r = append(r, x)
-	}
-	return r
 }
 
 // genWord produces one word with a chosen zero/non-zero pattern.
@@ -180,21 +154,21 @@ func runC13(out *Out, r *Rand, tier string, replay []string) {
 		f := strings.Fields(line)
 		switch f[0] {
 		case "pack":
-			src := unhx(f[1])
+			src := Unhx(f[1])
 			res := c13Pack(src)
-			out.Case("pack", line, res, cls(res), len(src) > 0)
+			out.Case("pack", line, res, Cls(res), len(src) > 0)
 		case "unpack":
-			src := unhx(f[1])
+			src := Unhx(f[1])
 			res := c13Unpack(src)
-			out.Case("unpack", line, res, cls(res), len(src) > 1)
+			out.Case("unpack", line, res, Cls(res), len(src) > 1)
 		case "stream":
-			src := unhx(f[1])
-			res := c13Stream(src, parseInts(f[2]), parseInts(f[3]), parseInts(f[4])[0], false)
-			out.Case("stream", line, res, cls(res), len(src) > 1)
+			src := Unhx(f[1])
+			res := c13Stream(src, ParseInts(f[2]), ParseInts(f[3]), ParseInts(f[4])[0], false)
+			out.Case("stream", line, res, Cls(res), len(src) > 1)
 		case "streamword":
-			src := unhx(f[1])
-			res := c13Stream(src, parseInts(f[2]), []int{8}, parseInts(f[3])[0], true)
-			out.Case("streamword", line, res, cls(res), len(src) > 1)
+			src := Unhx(f[1])
+			res := c13Stream(src, ParseInts(f[2]), []int{8}, ParseInts(f[3])[0], true)
+			out.Case("streamword", line, res, Cls(res), len(src) > 1)
 		default:
 			panic("bad case " + line)
 		}
@@ -215,14 +189,14 @@ func runC13(out *Out, r *Rand, tier string, replay []string) {
 	// exhaustive part: every tag pattern as a single word, alone and followed by a zero / literal word
 	for m := 0; m < 256; m++ {
 		w := genWord(r, byte(m))
-		do("pack " + hx(w))
-		do("pack " + hx(append(append([]byte{}, w...), make([]byte, 8)...)))
-		do("pack " + hx(append(append([]byte{}, w...), genWord(r, 0xff)...)))
+		do("pack " + Hx(w))
+		do("pack " + Hx(append(append([]byte{}, w...), make([]byte, 8)...)))
+		do("pack " + Hx(append(append([]byte{}, w...), genWord(r, 0xff)...)))
 		p := capnp.VerifPack(nil, w)
-		do("unpack " + hx(p))
+		do("unpack " + Hx(p))
 		for cut := 0; cut < len(p); cut++ {
-			do("unpack " + hx(p[:cut]))
-			do(fmt.Sprintf("streamword %s %s %d", hx(p[:cut]), "4096", 16))
+			do("unpack " + Hx(p[:cut]))
+			do(fmt.Sprintf("streamword %s %s %d", Hx(p[:cut]), "4096", 16))
 		}
 	}
 	for i := 0; i < n; i++ {
@@ -231,25 +205,25 @@ func runC13(out *Out, r *Rand, tier string, replay []string) {
 			mw = 1 + r.Intn(12)
 		}
 		payload := genPayload(r, mw)
-		do("pack " + hx(payload))
+		do("pack " + Hx(payload))
 		packedForm := safePack(payload)
 		// valid packed input through every decoder
-		do("unpack " + hx(packedForm))
-		do(fmt.Sprintf("stream %s %s %s %d", hx(packedForm), ints(genChunks(r)), ints(genSizes(r)), 16+r.Intn(3)*2040))
-		do(fmt.Sprintf("streamword %s %s %d", hx(packedForm), ints(genChunks(r)), 16+r.Intn(2)*4080))
+		do("unpack " + Hx(packedForm))
+		do(fmt.Sprintf("stream %s %s %s %d", Hx(packedForm), Ints(genChunks(r)), Ints(genSizes(r)), 16+r.Intn(3)*2040))
+		do(fmt.Sprintf("streamword %s %s %d", Hx(packedForm), Ints(genChunks(r)), 16+r.Intn(2)*4080))
 		// truncations: every prefix for short inputs, random prefixes otherwise
 		if len(packedForm) <= 40 {
 			for cut := 0; cut < len(packedForm); cut++ {
-				do("unpack " + hx(packedForm[:cut]))
-				do(fmt.Sprintf("stream %s %s %s %d", hx(packedForm[:cut]), ints(genChunks(r)), ints(genSizes(r)), 16))
-				do(fmt.Sprintf("streamword %s %s %d", hx(packedForm[:cut]), ints(genChunks(r)), 16))
+				do("unpack " + Hx(packedForm[:cut]))
+				do(fmt.Sprintf("stream %s %s %s %d", Hx(packedForm[:cut]), Ints(genChunks(r)), Ints(genSizes(r)), 16))
+				do(fmt.Sprintf("streamword %s %s %d", Hx(packedForm[:cut]), Ints(genChunks(r)), 16))
 			}
 		} else {
 			for k := 0; k < 6; k++ {
 				cut := r.Intn(len(packedForm))
-				do("unpack " + hx(packedForm[:cut]))
-				do(fmt.Sprintf("stream %s %s %s %d", hx(packedForm[:cut]), ints(genChunks(r)), ints(genSizes(r)), 16+r.Intn(2)*4080))
-				do(fmt.Sprintf("streamword %s %s %d", hx(packedForm[:cut]), ints(genChunks(r)), 16))
+				do("unpack " + Hx(packedForm[:cut]))
+				do(fmt.Sprintf("stream %s %s %s %d", Hx(packedForm[:cut]), Ints(genChunks(r)), Ints(genSizes(r)), 16+r.Intn(2)*4080))
+				do(fmt.Sprintf("streamword %s %s %d", Hx(packedForm[:cut]), Ints(genChunks(r)), 16))
 			}
 		}
 		// malformed stream: mutated bytes / random bytes
@@ -265,15 +239,15 @@ func runC13(out *Out, r *Rand, tier string, replay []string) {
 				mut = append(mut[:j], mut[j+1:]...)
 			}
 		}
-		do("unpack " + hx(mut))
-		do(fmt.Sprintf("stream %s %s %s %d", hx(mut), ints(genChunks(r)), ints(genSizes(r)), 16))
+		do("unpack " + Hx(mut))
+		do(fmt.Sprintf("stream %s %s %s %d", Hx(mut), Ints(genChunks(r)), Ints(genSizes(r)), 16))
 		if i%5 == 0 {
 			rnd := make([]byte, r.Intn(30))
 			for j := range rnd {
 				rnd[j] = []byte{0, 0xff, byte(r.U64()), byte(r.Intn(4))}[r.Intn(4)]
 			}
-			do("unpack " + hx(rnd))
-			do(fmt.Sprintf("streamword %s %s %d", hx(rnd), ints(genChunks(r)), 16))
+			do("unpack " + Hx(rnd))
+			do(fmt.Sprintf("streamword %s %s %d", Hx(rnd), Ints(genChunks(r)), 16))
 		}
 	}
 	out.Close("payloads: runs of zero / literal / mixed words with run lengths around 254..257 and 510; packed inputs: valid, every or random prefix, mutated, random. distinct = distinct case line; non-trivial = non-empty payload / packed input of at least 2 bytes")
@@ -291,13 +265,6 @@ func genSizes(r *Rand) []int {
 func safePack(b []byte) (res []byte) {
 	defer func() { recover() }()
 	return capnp.VerifPack(nil, b)
-}
-
-func cls(res string) string {
-	if i := strings.IndexByte(res, ' '); i >= 0 {
-		return res[:i]
-	}
-	return res
 }
 
 var _ = bytes.Equal
